@@ -16,6 +16,7 @@ package internal
 
 import (
 	"net/http"
+	"strings"
 )
 
 // RequestMethodChecker describes the interface implemented by types that can
@@ -35,5 +36,8 @@ func NewRequestMethodChecker() RequestMethodChecker {
 }
 
 func isRequestMethodUnderstood(req *http.Request) bool {
-	return req.Method == http.MethodGet && req.Header.Get("Range") == ""
+	// (Any Range field line makes it a range request, also one that follows an
+	// empty first line.)
+	return req.Method == http.MethodGet && req.Header.Get("Range") == "" &&
+		strings.Join(req.Header.Values("Range"), "") == ""
 }
